@@ -322,8 +322,6 @@ func (srv *Server) ListenAndServe() error {
 		addr = ":domain"
 	}
 
-	srv.init()
-
 	switch srv.Net {
 	case "tcp", "tcp4", "tcp6":
 		l, err := listenTCP(srv.Net, addr, srv.ReusePort, srv.ReuseAddr)
@@ -331,6 +329,7 @@ func (srv *Server) ListenAndServe() error {
 			return err
 		}
 		srv.Listener = l
+		srv.init()
 		srv.started = true
 		unlock()
 		return srv.serveTCP(l)
@@ -345,6 +344,7 @@ func (srv *Server) ListenAndServe() error {
 		}
 		l = tls.NewListener(l, srv.TLSConfig)
 		srv.Listener = l
+		srv.init()
 		srv.started = true
 		unlock()
 		return srv.serveTCP(l)
@@ -359,6 +359,7 @@ func (srv *Server) ListenAndServe() error {
 			return e
 		}
 		srv.PacketConn = l
+		srv.init()
 		srv.started = true
 		unlock()
 		return srv.serveUDP(u)
@@ -377,8 +378,6 @@ func (srv *Server) ActivateAndServe() error {
 		return &Error{err: "server already started"}
 	}
 
-	srv.init()
-
 	if srv.PacketConn != nil {
 		// Check PacketConn interface's type is valid and value
 		// is not nil
@@ -387,11 +386,13 @@ func (srv *Server) ActivateAndServe() error {
 				return e
 			}
 		}
+		srv.init()
 		srv.started = true
 		unlock()
 		return srv.serveUDP(srv.PacketConn)
 	}
 	if srv.Listener != nil {
+		srv.init()
 		srv.started = true
 		unlock()
 		return srv.serveTCP(srv.Listener)
